@@ -101,6 +101,11 @@ def confirm(runA, runB, vals, max_steps, result_bits=64):
     if pa is None or pb is None or pa.status != 'done':
         return False, detail
     if pb.status != 'done':
+        if pb.status == 'cutoff' and 'steps' in (pb.note or '') and pb.steps >= 2000 * max(pa.steps, 50):
+            # the reference finishes after pa.steps rule applications, the compiled program is still running after more
+            # than 2000 times as many steps (one rule application compiles to tens of instructions): bounded divergence
+            detail['divergence'] = {'reference_steps': pa.steps, 'compiled_steps': pb.steps}
+            return True, detail
         return pb.status in ('stuck', 'undefined'), detail
     d = trace_diff(pa.events, pa.value, pb.events, pb.value, result_bits)
     return (d is True), detail
